@@ -119,11 +119,11 @@ def run(ctx):
     texts = ['REB %d %s %s %d %s' % (i, updenc.cfg_str(c['cfg']), c['fam'], 1 if c['ap'] else 0, c['msg'].hex()) for i, c in enumerate(cases)]
     with open(path, 'w') as f:
         f.write('\n'.join(texts) + '\n')
-    impl, _ = core.run_tool(ctx.harness, ['c07', path], timeout=3000)
+    impl, _ = core.run_tool_sharded(ctx.harness, ['c07'], path)
     impl = [l for l in impl if l]
     by = {int(l.split(' ')[1]): l for l in impl}
     if ctx.model:
-        model, _ = core.run_tool(ctx.model, ['c07', path], timeout=3000)
+        model, _ = core.run_tool_sharded(ctx.model, ['c07'], path)
         for k, a, b in core.diff_lines(model, impl, limit=5):
             idx = int((a if a != '<missing>' else b).split(' ')[1])
             ctx.violation('model and implementation disagree', case=texts[idx][:600], model=a[:400], impl=b[:400], kind=cases[idx]['kind'])
